@@ -269,7 +269,7 @@ pub enum Spec {
     Slice(Vec<u8>),
     Bytes(usize, Vec<u8>),
     BytesMut(usize, Vec<u8>),
-    Cursor(usize, Vec<u8>), // position, whole vector
+    Cursor(u64, Vec<u8>), // position (may lie far beyond the data, or beyond usize on 32-bit targets), whole vector
     Deque(usize, Vec<u8>),  // rotation, contents
     Seg(u8, Vec<Vec<u8>>),  // 0 = own default-like vectored, 1 = multi-slice vectored, 2 = trait default
     /// endless zeros (only below a Take with a small limit); its model is a long-enough prefix
@@ -283,7 +283,7 @@ impl Spec {
     pub fn model(&self) -> Vec<u8> {
         match self {
             Spec::Slice(v) | Spec::Bytes(_, v) | Spec::BytesMut(_, v) | Spec::Deque(_, v) => v.clone(),
-            Spec::Cursor(p, v) => v[(*p).min(v.len())..].to_vec(),
+            Spec::Cursor(p, v) => v[(*p).min(v.len() as u64) as usize..].to_vec(),
             Spec::Seg(_, parts) => parts.concat(),
             Spec::Endless => vec![0u8; 4096],
             Spec::Take(l, _, x) => {
@@ -410,8 +410,7 @@ pub fn build(s: &Spec) -> BX {
         Spec::BytesMut(r, v) => Box::new(mk_mut(*r, v)),
         Spec::Cursor(p, v) => {
             let mut c = Cursor::new(v.clone());
-            // usize::MAX stands for a position that does not even fit usize on 32-bit targets
-            c.set_position(if *p == usize::MAX { u64::MAX } else { *p as u64 });
+            c.set_position(*p);
             Box::new(c)
         }
         Spec::Deque(rot, v) => {
